@@ -7,7 +7,7 @@ from props import rwcommon as rc
 ID = "C01"
 PROP_FILE = "props/C01.v"
 COQ_TARGETS = ["props/C01.v"]
-THEOREMS = ["C01_erase_sound", "C01_erase_any", "C01_rw_frag", "C01_rw_frag_certified", "C01_frag_semantics", "C01_fun_semantics"]
+THEOREMS = ["C01_erase_sound", "C01_erase_any", "C01_rw_frag", "C01_rw_frag_certified", "C01_frag_semantics", "C01_fun_semantics", "C01_prog_semantics"]
 TRUSTED_BASE = [
     "Coq 8.16.1 kernel, vm_compute for the per-program erasure certificates",
     "tools/impl/astexport.py (AST -> Coq term, interning, id canonicalisation), tools/translators/gen_pyast.py + gen_events.py",
@@ -198,7 +198,9 @@ def run(ctx, model_ok, deferred=False, only_deferred=False, n_quick=120, extra_c
     if model_ok and ctx.prop == "C01":
         # functions / calls / return on the fragment (model/FragFun.v, theorem C01_fun_semantics) against the real rewriter, CPython and the real runtime
         from props import fragfun
-        fragfun.run_into(ctx, rng, res, 30 if ctx.tier == "quick" else 400)
+        fragfun.run_into(ctx, rng, res, 16 if ctx.tier == "quick" else 300)
+        from props import fragprog
+        fragprog.run_into(ctx, rng, res, 24 if ctx.tier == "quick" else 400)
     return res
 
 
@@ -207,5 +209,8 @@ def replay(ctx, rep):
     if case0.get("frag") == "fun":
         from props import fragfun
         return fragfun.replay_case(case0)
+    if case0.get("frag") == "prog":
+        from props import fragprog
+        return fragprog.replay_case(case0)
     case = (rep.get("failure") or {}).get("case")
     return fails_on_impl(case) if case else None
